@@ -308,6 +308,29 @@ func runC08(tb ev.TB, p c08Prog) ev.Result {
 				tb.Fatalf("writing the %s entry through the codec gives %s, original %s\n orig %x\n new  %x", what, c4, e.GetHash(), raw, r4)
 			}
 		}
+		// the identity record an entry carries is a field of its own: it need not name the key the entry is signed
+		// with (an entry relayed under another holder's record, say). Written through the codec and read back,
+		// the record is what was written, and re-encoding gives the same identifier.
+		if p.Ident != nil && len(p.Ident.SigPK) >= 8 {
+			v := e.Copy()
+			rec := *e.GetIdentity()
+			rec.PublicKey = append([]byte{0x04}, p.Ident.SigPK...)
+			v.SetIdentity(&rec)
+			cv, err := io.Write(ctx, s2.API(), v, nil)
+			if err != nil {
+				tb.Fatalf("codec Write of an entry whose identity record names another key failed: %v", err)
+			}
+			dv, err := entry.FromMultihashWithIO(ctx, s2.API(), cv, provider, io)
+			if err != nil {
+				tb.Fatalf("reading back an entry whose identity record names another key failed: %v", err)
+			}
+			if !bytes.Equal(dv.GetIdentity().PublicKey, rec.PublicKey) || !bytes.Equal(dv.GetKey(), e.GetKey()) {
+				tb.Fatalf("read-back of an entry whose identity record names another key: identity key %x (written %x), entry key %x (written %x)", dv.GetIdentity().PublicKey, rec.PublicKey, dv.GetKey(), e.GetKey())
+			}
+			if c5, err := io.Write(ctx, fakeipfs.NewStore().API(), dv, nil); err != nil || !c5.Equals(cv) {
+				tb.Fatalf("re-encoding the decoded entry (identity record naming another key) gives %s (%v), original %s", c5, err, cv)
+			}
+		}
 		// and the entry's own method agrees
 		if de, ok := d.(*entry.Entry); ok {
 			c3, err := de.ToMultihash(ctx, s2.API(), nil)
